@@ -514,6 +514,8 @@ struct G {
 	lines: Vec<String>,
 	/// request ids reserved for the unsubscribe call of a subscribe the client refused (subscription id in use)
 	reserved_of_refused: Vec<u64>,
+	/// rotation through the exits of the subscribe-response step (cycle 22), so that coverage does not depend on the seed
+	exit_rot: u64,
 }
 
 /// a pending acknowledgement the "server" still owes
@@ -1056,6 +1058,95 @@ impl G {
 				self.old_sids.push(sid);
 				owed
 			}
+			22 => {
+				// A subscribe the application has ABANDONED (future dropped / timed out) is answered: all four exits of the
+				// subscribe-response step with nobody waiting — an error object, a result that is no subscription id, an id in
+				// use, a fresh id.  The refusals leave nothing behind (neither the entry nor the request id reserved for the
+				// unsubscribe call), the acceptance is unsubscribed by the client at once (seeded mutant C18-R9 kept the
+				// reserved id when the error could not be handed to the gone caller).  The exits rotate: every fourth cycle each.
+				let exit = self.exit_rot % 4;
+				let variant = self.exit_rot / 4;
+				self.exit_rot += 1;
+				let str_ids = self.str_ids;
+				let mut owed = vec![];
+				// for "id in use": a subscription that holds the id
+				let mut holder: Option<(usize, u64, String)> = None;
+				if exit == 2 {
+					self.sid_counter += 1;
+					let sid = if variant % 2 == 0 { format!("\"U{}\"", self.sid_counter) } else { format!("{}", 9000 + self.sid_counter) };
+					self.lines.push("cl subscribe".into());
+					let a_id = self.next_id;
+					let a_op = self.next_op;
+					self.next_id += 2;
+					self.next_op += 1;
+					self.deliver(&format!("{{\"jsonrpc\":\"2.0\",\"id\":{},\"result\":{sid}}}", idj(a_id, str_ids)));
+					holder = Some((a_op, a_id, sid));
+				}
+				self.lines.push("cl subscribe".into());
+				let id = self.next_id;
+				let op = self.next_op;
+				self.next_id += 2;
+				self.next_op += 1;
+				// given up at once, or after something else was issued
+				if variant % 3 == 1 {
+					self.lines.push("cl call".into());
+					owed.push(Owed::CallAnswer(self.next_id));
+					self.next_id += 1;
+					self.next_op += 1;
+				}
+				self.lines.push(format!("cl abandon {op}"));
+				if rng.chance(1, 3) {
+					self.sizes();
+				}
+				let idt = idj(id, str_ids);
+				match exit {
+					0 => {
+						out.count("cycle.sub.abandoned.refused-error");
+						let errors = [
+							"{\"code\":-32000,\"message\":\"no\"}",
+							"{\"code\":-32601,\"message\":\"Method not found\"}",
+							"{\"code\":-32602,\"message\":\"Invalid params\",\"data\":\"x\"}",
+							"{\"code\":1,\"message\":\"\",\"data\":[1,{\"a\":null}]}",
+							"{\"code\":-32603,\"message\":\"Internal error\",\"data\":null}",
+							"{\"message\":\"m\",\"data\":{\"code\":1},\"code\":2147483647}",
+							"[-32000,\"by position\",null]",
+							"{\"code\":-2147483648,\"message\":\"too many subscriptions\"}",
+						];
+						let e = errors[(variant as usize) % errors.len()];
+						self.deliver(&format!("{{\"jsonrpc\":\"2.0\",\"id\":{idt},\"error\":{e}}}"));
+						self.reserved_of_refused.push(id + 1);
+					}
+					1 => {
+						out.count("cycle.sub.abandoned.refused-not-an-id");
+						let results = ["null", "{\"not\":\"an id\"}", "true", "[1]", "-1", "1.5", "[]"];
+						let r = results[(variant as usize) % results.len()];
+						self.deliver(&format!("{{\"jsonrpc\":\"2.0\",\"id\":{idt},\"result\":{r}}}"));
+						self.reserved_of_refused.push(id + 1);
+					}
+					2 => {
+						out.count("cycle.sub.abandoned.refused-id-in-use");
+						let (a_op, a_id, sid) = holder.clone().unwrap();
+						self.deliver(&format!("{{\"jsonrpc\":\"2.0\",\"id\":{idt},\"result\":{sid}}}"));
+						self.reserved_of_refused.push(id + 1);
+						// the holder is not disturbed
+						self.deliver(&format!("{{\"jsonrpc\":\"2.0\",\"method\":\"sub\",\"params\":{{\"subscription\":{sid},\"result\":1}}}}"));
+						self.lines.push(format!("cl next {a_op}"));
+						self.lines.push(format!("cl {} {a_op}", if variant % 2 == 0 { "drop" } else { "unsub" }));
+						owed.push(Owed::UnsubAck(a_id + 1, rng.below(16)));
+					}
+					_ => {
+						out.count("cycle.sub.abandoned.accepted");
+						self.sid_counter += 1;
+						let sid = if variant % 2 == 0 { format!("\"F{}\"", self.sid_counter) } else { format!("{}", 9500 + self.sid_counter) };
+						self.deliver(&format!("{{\"jsonrpc\":\"2.0\",\"id\":{idt},\"result\":{sid}}}"));
+						owed.push(Owed::UnsubAck(id + 1, rng.below(16)));
+					}
+				}
+				if rng.chance(1, 3) {
+					self.sizes();
+				}
+				owed
+			}
 			_ => {
 				out.count("cycle.sub.abandoned");
 				self.lines.push("cl subscribe".into());
@@ -1089,6 +1180,7 @@ fn gen_case(rng: &mut Rng, caseno: u64, out: &mut Out, long: Option<(u64, u64)>)
 		next_op: 0,
 		sid_counter: 0,
 		reserved_of_refused: vec![],
+		exit_rot: 0,
 		lines: vec![format!("case {caseno} client {} {cap} {fcap}{opts}", if str_ids { "str" } else { "num" })],
 	};
 	match long {
@@ -1111,9 +1203,9 @@ fn gen_case(rng: &mut Rng, caseno: u64, out: &mut Out, long: Option<(u64, u64)>)
 			for _ in 0..rounds {
 				let k = rng.range(1, 4);
 				let mut owed: Vec<Owed> = vec![];
-				let single_kind = if rng.chance(2, 3) { Some(rng.below(22)) } else { None };
+				let single_kind = if rng.chance(2, 3) { Some(rng.below(23)) } else { None };
 				for _ in 0..k {
-					let kind = single_kind.unwrap_or_else(|| rng.below(23));
+					let kind = single_kind.unwrap_or_else(|| rng.below(24));
 					owed.extend(g.cycle(rng, kind, out));
 					if rng.chance(1, 5) {
 						g.sizes();
@@ -1199,7 +1291,7 @@ fn main() {
 		let mut caseno = 0u64;
 		// every cycle kind repeated: 1..200 (quick: 3 lengths), thorough adds 2000
 		let reps: Vec<u64> = if a.tier == "thorough" { vec![1, 2, 7, 50, 200, 2000] } else { vec![1, 5, 200] };
-		for kind in 0..22u64 {
+		for kind in 0..23u64 {
 			for r in &reps {
 				caseno += 1;
 				let ls = gen_case(&mut rng, caseno, &mut out, Some((kind, *r)));
